@@ -1585,8 +1585,60 @@ def marker_words_inside_battery(ops_after):
     return out
 
 
+def index_file_bytes(sections):
+    """the sidecar index as documented: 4 header bytes (u16 length 0, two newlines), then per section
+    the timestamp and the byte offset as little-endian u64"""
+    c = _gen_consts()
+    out = bytearray((0).to_bytes(2, "little") + c["lineEnds"])
+    for ts, off in sections:
+        out += ts.to_bytes(8, "little") + off.to_bytes(8, "little")
+    return bytes(out)
+
+
+def index_ahead_battery(ops_after):
+    """the index got (part of) an entry for a section that never reached the data file (a crash inside
+    Index::update, which writes the timestamp and the offset separately): every real entry is there and
+    matches the data, 8 / 12 / 16 / 24 stray bytes follow.  Open, look, append a new section (also the very
+    timestamp of the lost one), reopen"""
+    out = []
+    for p in [0, 4]:
+        for stray in (8, 12, 16, 24):
+            h = Hist(p)
+            h.new()
+            for base in (1000, 200000):
+                for k in range(3):
+                    h.push(base + k, pl=bytes([k + 1] * p))
+            lost_ts = 400000
+            lost = lost_ts.to_bytes(8, "little") + h.off.to_bytes(8, "little") + (lost_ts + 1).to_bytes(8, "little") + bytes(8)
+            idx = index_file_bytes(h.sections) + lost[:stray]
+            h.op("close")
+            h.op("save 0")
+            for retry_ts in (lost_ts, lost_ts + 50000):
+                h.op("restore 0")
+                h.op("put index " + hexs(idx))
+                h.open()
+                for a in ops_after:
+                    h.op(a)
+                h.op("close")
+                h.op("files")
+                h.open()
+                h.op(f"push ts={retry_ts} pl={hexs(bytes(p))}")
+                h.op(f"push ts={retry_ts + 1} pl={hexs(bytes(p))}")
+                h.op("close")
+                h.op("files")
+                h.open()
+                for a in ops_after:
+                    h.op(a)
+                h.op(f"push ts={retry_ts + 200000} pl={hexs(bytes(p))}")
+                h.op("close")
+                h.op("files")
+            out.append((f"index-ahead-partial-p{p}-{stray}", h.script()))
+    return out
+
+
 def gen_C06(rng, tier):
     out = marker_words_inside_battery(["files", "len", "read_all s=U e=U"])
+    out += index_ahead_battery(["files", "len", "range", "read_all s=U e=U"])
     for p in ([0, 2, 4] if tier == "quick" else [0, 1, 2, 3, 4, 5, 8, 16]):
         h = big_sparse(p, lines_for_bytes(p, 3 * 16384 + 700, True), seed=p + 31)
         h.op("files")
@@ -2288,6 +2340,26 @@ def builder_chain_battery():
         h.op(f"new p={p} hdr={O}>any caches=-")                     # over existing, whatever the chain
         h.op("files")
         out.append((f"builder-chain-p{p}", h.script()))
+    # two reasons to fail at once: a create over an EXISTING series with a header that is too large as
+    # well (and with caches demanded): error, every existing file untouched
+    for p in (0, 4):
+        for ul in (max_user_header(p) + 1, 65536, 70000):
+            for caches in ("-", "2"):
+                h = Hist(p, hdr=b"old")
+                h.op(f"new p={p} hdr={hexs(b'old')} caches={caches}")
+                for t in (5, 6, 7, 100000):
+                    h.op(f"push ts={t} pl={hexs(bytes(p))}")
+                h.op("close")
+                h.op("files")
+                big = bytes((i * 7) % 256 for i in range(ul))
+                h.op(f"new p={p} hdr={hexs(big)} caches={caches}")
+                h.op("files")
+                h.op(f"new p={p + 1} hdr={hexs(big)} caches=-")
+                h.op("files")
+                h.op("open p=any hdr=any caches=- cb=none ext=0")
+                h.op("read_all s=U e=U")
+                h.op("close")
+                out.append((f"create-over-existing-oversize-p{p}-{ul}-c{caches}", h.script()))
     return out
 
 
